@@ -63,6 +63,15 @@ def run(rep, tier, rng):
             cases.append(C.whist_case(True, 0, hx, fault=(1, j, 0)))
             meta.append({"h": ["A", "x", "a", "f"], "pos": 1, "t1": t1, "t2": t2,
                          "without": C.whist_case(True, 0, h, fault=(1, j, 0))})
+    # the bulk helper `write_shapes` offered a collection of another type after single calls fixed the type
+    for (t1, t2, a, x) in probes:
+        for prefix in (["a"], ["a", "f"], ["a", "a"], ["f", "a"]):
+            for ntail in (1, 2):
+                hs = rng.random() < 0.5
+                wire = [("f",) if c == "f" else ("w", a) for c in prefix]
+                cases.append(C.whist_case(hs, 3 + ntail, wire + [("w", x)] * ntail))
+                meta.append({"h": prefix + ["X"], "pos": len(prefix), "t1": t1, "t2": t2, "without": C.whist_case(hs, 0, wire)})
+    rep.cov["bulk_tail_of_another_type_cases"] = sum(1 for m in meta if "X" in m["h"])
     rep.cov["after_failed_first_write_cases"] = sum(1 for m in meta if "A" in m["h"])
     rep.cov["after_failed_finalize_cases"] = sum(1 for m in meta if "F" in m["h"])
     rep.cov["rule"] = ("all 13x12 ordered pairs (file type, offered type); histories 'a' + {a, finalize}^<=%d with the rejected "
@@ -105,6 +114,18 @@ def run(rep, tier, rng):
             if nfail == 1:
                 rep.violation({"kind": "oracle", "what": msg, "case_kind": "whist", "case": c, "history": "".join(m["h"]),
                                "impl_result": r})
+    # ---- the names under which the error message shows the two types (`Display` of ShapeType, used by the Display of
+    # Error::MismatchShapeType): the ESRI names
+    import C19
+    trows = sfv.run_impl(dev, [[1, code] for code in shapes.ALL_CODES])
+    for code, row in zip(shapes.ALL_CODES, trows):
+        rep.count_case((1, code, tuple(row)))
+        name = bytes(row[5:]).decode("utf-8", "replace") if len(row) > 5 else None
+        if name != C19.ESRI[code][3]:
+            nfail += 1
+            rep.violation({"kind": "oracle", "what": "a type-mismatch error involving a %s shape names it %r in its message"
+                           % (C19.ESRI[code][3], name), "case_kind": "table", "case": [1, code]})
+            break
     # ---- through the complete writer: the rejected shape's attribute row is not written either
     import C08
     pcases, pmeta = [], []
